@@ -290,6 +290,15 @@ def platform_call(fname: Optional[str], fval: Optional[V], call: ast.Call, args:
             if args[0].v in _opcode.opmap:
                 return K(_opcode.opmap[args[0].v])
             return args[1] if len(args) > 1 else K(None)
+    if isinstance(fval, K) and isinstance(fval.v, str) and isinstance(call.func, ast.Attribute) and call.func.attr in _STR_FOLD \
+            and all(isinstance(a, K) for a in args) and not kwargs:
+        try:
+            r = getattr(fval.v, call.func.attr)(*[a.v for a in args])
+        except Exception:
+            return None
+        if isinstance(r, list):
+            r = tuple(r)
+        return K(r)
     if fname == "len" and len(args) == 1:
         a = args[0]
         if isinstance(a, K) and isinstance(a.v, (bytes, str, tuple, frozenset)):
@@ -303,6 +312,9 @@ def platform_call(fname: Optional[str], fval: Optional[V], call: ast.Call, args:
             return K(frozenset(items)) if fname != "tuple" else K(tuple(items))
     return None
 
+
+_STR_FOLD = {"startswith", "endswith", "split", "rsplit", "partition", "rpartition", "lower", "upper", "strip",
+             "lstrip", "rstrip", "find", "count", "isidentifier", "isalnum", "replace", "casefold", "title"}
 
 _CONST_CACHE: Dict[Tuple[str, str], V] = {}
 
@@ -318,3 +330,59 @@ def fold_const(repo: Repo, mod: Module, name: str) -> V:
     v = ri.interp.eval(mod.constants[name], State())
     _CONST_CACHE[key] = v
     return v
+
+
+# ---------------------------------------------------------------------------
+# Parameter forwarding across the package's call graph
+# ---------------------------------------------------------------------------
+
+def call_sites(repo: Repo, callee_pred: Callable[[FunctionInfo], bool]) -> List[Tuple[FunctionInfo, ast.Call, FunctionInfo]]:
+    """(caller, call node, resolved callee) for every call in the package whose callee satisfies pred."""
+    out = []
+    for fi in repo.all_functions():
+        for c in calls_in(fi.node):
+            callee = repo.resolve_callee(fi, c)
+            if callee is not None and callee_pred(callee):
+                out.append((fi, c, callee))
+    return out
+
+
+def bound_argument(callee: FunctionInfo, call: ast.Call, param: str) -> Optional[ast.AST]:
+    """The argument expression bound to `param` at this call (None = omitted)."""
+    skip_self = callee.cls is not None and "staticmethod" not in callee.decorators()
+    b = bind_args(callee, call, skip_self=skip_self)
+    return b.get(param)
+
+
+def attr_stores(repo: Repo, ci: Any, attr: str) -> List[Tuple[FunctionInfo, ast.AST, ast.AST]]:
+    """(method, statement, value) for every `self.<attr> = value` in class ci (and package subclasses)."""
+    out = []
+    classes = [ci] + repo.subclasses(ci)
+    for c in classes:
+        for m in c.methods.values():
+            for x in walk_no_nested(m.node):
+                if isinstance(x, (ast.Assign, ast.AnnAssign)):
+                    tgts = x.targets if isinstance(x, ast.Assign) else [x.target]
+                    for t in tgts:
+                        if isinstance(t, ast.Attribute) and t.attr == attr and is_name(t.value, "self"):
+                            out.append((m, x, x.value))
+                elif isinstance(x, ast.AugAssign) and isinstance(x.target, ast.Attribute) and x.target.attr == attr and is_name(x.target.value, "self"):
+                    out.append((m, x, x))
+    return out
+
+
+def attr_is_param(repo: Repo, ci: Any, attr: str, param: str) -> Tuple[bool, str]:
+    """`self.attr` is only ever assigned, in __init__, the constructor parameter `param` unchanged."""
+    st = attr_stores(repo, ci, attr)
+    if not st:
+        return False, f"no store to self.{attr}"
+    for m, stmt, val in st:
+        if m.qualname.split(".")[-1] != "__init__":
+            return False, f"self.{attr} assigned outside __init__: {norm(stmt)}"
+        if not is_name(val, param):
+            return False, f"self.{attr} is not the constructor parameter `{param}`: {norm(stmt)}"
+        g = cfg_of(m)
+        n = g.node_of(val)
+        if n is None or not all(k == "param" for _, k, _ in g.origins(val, n.id)):
+            return False, f"`{param}` is rebound before being stored: {norm(stmt)}"
+    return True, ""
